@@ -44,3 +44,11 @@ func VerifC04ExecuteTx(ccc consensus.ChainConsensusCluster, bs *state.BlockState
 
 // VerifC04SDB is the state DB of a Core (the harness' block producer commits block states into it).
 func (core *Core) VerifC04SDB() *state.ChainStateDB { return core.sdb }
+
+// VerifC04ReorgCause unwraps the error a failed reorganisation is reported with (ErrReorg.err); nil if e is not one.
+func VerifC04ReorgCause(e error) error {
+	if r, ok := e.(*ErrReorg); ok {
+		return r.err
+	}
+	return nil
+}
